@@ -31,6 +31,20 @@ func verifHeld(delta int) {
 	}
 }
 
+// VerifLockObj, when set, is told which mutex the calling goroutine is about to
+// acquire ('l' Lock, 'r' RLock), has acquired ('L', 'R') or has released ('U').
+// This package contains no call sites either: they exist only in the
+// instrumented scratch copy, and let a harness hold a goroutine back before a
+// Lock call whose mutex is held by a goroutine the harness has parked inside
+// its critical section.
+var VerifLockObj func(kind byte, mu any)
+
+func verifLockObj(kind byte, mu any) {
+	if f := VerifLockObj; f != nil {
+		f(kind, mu)
+	}
+}
+
 // verifPreLock is the yield inserted before every lock acquisition by the
 // verification build's instrumentation.
 func verifPreLock(site string) {
